@@ -44,7 +44,7 @@ def child_run(m, ops, proto):
     with os.fdopen(fd, "w") as f:
         json.dump({"pickle": pk, "ops": ops}, f)
     try:
-        r = subprocess.run([sys.executable, "-m", "mon.scenario", sp], cwd=env.VERIF, timeout=120,
+        r = subprocess.run([sys.executable, "-m", "mon.scenario", sp], cwd=env.VERIF, timeout=900,
                            stdout=subprocess.PIPE, stderr=subprocess.PIPE)
         if r.returncode != 0:
             return None, r.stderr.decode(errors="replace")[-300:]
@@ -107,6 +107,9 @@ def run_case(rs, ctx):
         if method == "subprocess":
             proto = 2 + ctx.index % 4
             oC, err = child_run(M, cont, proto)
+            if oC is None and err == "timeout":
+                ctx.count("fresh_interpreter_timeouts")  # a watchdog firing is inconclusive for this case, never a verdict
+                return
             if oC is None:
                 ctx.violation("%s: pickle (protocol %d) could not be restored / run in a fresh interpreter: %s" % (
                     gen.cfg_sig(cfg), proto, err), wit)
